@@ -2,7 +2,6 @@ SPECIFICATION Spec
 CONSTANTS
  Hs = {h1, h2}
  Threads = 1
- Dev = {}
-INVARIANTS NeverStuck NoSuspendedOwner
-PROPERTY Terminates
+ Dev = {"held"}
+INVARIANTS NoSuspendedOwner
 CHECK_DEADLOCK FALSE
